@@ -62,8 +62,7 @@ def check(chk):
     chk.decides = ('for every codec class: writer and reader use the same struct formats; collection/tuple/UDT/vector writers and readers agree, '
                    'per protocol version, on count width, element-length width, nested protocol version and null (negative length) handling; '
                    'cursor advances match the slice just read; to_binary/from_binary null/empty table; varint sign-bit tests over the byte domain')
-    chk.does_not_decide = ('equality of decoded and original values where it depends on arithmetic: varint byte-length formula, float timestamp '
-                           'maths, Decimal scaling, SortedSet ordering')
+    chk.does_not_decide = ('equality of decoded and original values where it depends on arithmetic: varint byte-length formula, Decimal scaling, SortedSet ordering')
     chk.rule('C01.scalar', 'the struct formats packed by a type\'s serialize equal those unpacked by its deserialize')
     chk.rule('C01.coll', 'per protocol version the writer and the reader of a parameterized type use the same count format, the same '
                          'element-length format(s) and the same nested protocol version max(3, v)')
@@ -269,6 +268,15 @@ def check(chk):
                                       'after reading %s the cursor is not advanced by %s (next statement: %s)' % (src(sub), width, src(nxt)[:60] if nxt is not None else 'end of block'))
     chk.require('C01.cursor', 8)
     # decoded maps index their entries by the key bytes as received; the container re-encodes looked-up keys with the version it is given
+    # a timestamp value is a whole number of milliseconds, a datetime a whole number of microseconds: the reader does not pass through a float
+    chk.rule('C01.exact', 'DateType.deserialize turns the int64 millisecond count into a datetime in integer arithmetic (no float literal, true division or float-returning helper on the value path)')
+    from ..sem import float_taint as _ft
+    dtd = mod.func('DateType.deserialize')
+    for r_ in [n for n in body_walk(dtd) if isinstance(n, ast.Return) and n.value is not None]:
+        why_ = _ft(chk.repo, mod, dtd, r_.value)
+        chk.judge(why_ is None, 'C01.exact', r_, 'DateType.deserialize: %s' % src(r_)[:90],
+                  'the millisecond count becomes a float number of seconds (%s) before it becomes a datetime: a double resolves less than a microsecond only within about 270 years of 1970, '
+                  'so a millisecond-precision timestamp far from the epoch (datetime(2327, 1, 9, 1, 15, 58, 456000)) reads back some microseconds off' % why_)
     chk.rule('C01.mapkey', 'MapType.deserialize_safe: OrderedMapSerializedKey is given the same (inner) protocol version the key bytes are decoded with')
     mt = C.mod.cls('MapType')
     md, _ = C.find_method(mt, 'deserialize_safe')
